@@ -15,11 +15,14 @@ import (
 	"verifharness/internal/zn"
 )
 
-type modSelCase struct {
+type modSelStmt struct {
 	Mode string   `json:"mode"` // "all" | "sel"
 	Sel  []string `json:"sel"`  // symbols m h t p x (module) / g r x (library)
-	Lib  bool     `json:"lib"`
-	Via  string   `json:"via"`  // "" = main imports 甲 directly; "nested" = the import statement stands in module 乙 and main imports 乙 (its names must NOT reach main)
+}
+
+type modSelCase struct {
+	Stmts []modSelStmt `json:"stmts"` // one or two import statements of the same module / library
+	Lib   bool         `json:"lib"`
 }
 
 var selName = map[string]string{"m": "甲方法", "h": "甲辅助", "t": "甲类", "p": "甲私有", "x": "甲无此名", "g": "生成JSON", "r": "解析JSON"}
@@ -40,32 +43,25 @@ func handleModSel(raw json.RawMessage) interface{} {
 	defer os.RemoveAll(dir)
 	os.WriteFile(filepath.Join(dir, "甲.zn"), []byte("如何甲方法？\n    输出（甲辅助）\n\n如何甲辅助？\n    输出“甲-help”\n\n定义甲类：\n    其名 = “甲”\n\n令甲私有 = 1\n"), 0644)
 	var imp strings.Builder
-	if c.Lib {
-		imp.WriteString("导入《@JSON》")
-		if c.Mode == "sel" && c.Sel != nil {
-			if nm := c.Sel; len(nm) > 0 {
-				var ns []string
-				for _, s := range nm {
-					if s == "x" {
-						ns = append(ns, "无此函数")
-					} else {
-						ns = append(ns, selName[s])
-					}
-				}
-				imp.WriteString("之" + strings.Join(ns, "、"))
-			}
+	for _, st := range c.Stmts {
+		if c.Lib {
+			imp.WriteString("导入《@JSON》")
+		} else {
+			imp.WriteString("导入“甲”")
 		}
-	} else {
-		imp.WriteString("导入“甲”")
-		if c.Mode == "sel" {
+		if st.Mode == "sel" {
 			var ns []string
-			for _, s := range c.Sel {
-				ns = append(ns, selName[s])
+			for _, s := range st.Sel {
+				if c.Lib && s == "x" {
+					ns = append(ns, "无此函数")
+				} else {
+					ns = append(ns, selName[s])
+				}
 			}
 			imp.WriteString("之" + strings.Join(ns, "、"))
 		}
+		imp.WriteString("\n")
 	}
-	imp.WriteString("\n")
 	var sb strings.Builder
 	sb.WriteString(imp.String())
 	var syms []string
